@@ -2,6 +2,7 @@ import ChythonModel.Proofs.C09Api
 import ChythonModel.Proofs.C09Closure
 import ChythonModel.Proofs.C09SearchP
 import ChythonModel.Proofs.C09SearchR
+import ChythonModel.Proofs.C09Layout
 /-!
 # C09 — compiled (bit-mask) matcher ≡ reference matcher: property theorems
 
@@ -203,6 +204,46 @@ theorem reference_loop_is_generic_search (e : Iso.Env) (hF : (frontsOf e.lq).Nod
 theorem compiled_search_eq_reference_search (D : Decode) (cm : CMol) (cq : CQuery) (hF : Faithful D cm cq) (scope : List Bool) :
     getMappingC cm cq scope = getMappingR D cm cq scope :=
   getMappingC_eq_R D cm cq hF scope
+
+/-- the copy of `Isomorphism._get_mapping` that the accelerated path runs with the overridden mapper (`isoWith`) is C07's
+    `isoUnfiltered` when the mapper is the Python one: both paths share the component / permutation / `lazy_product` code -/
+theorem isoWith_is_isoUnfiltered (p : Iso.Problem) (comps : List (List Iso.Step)) (cl : Iso.Closures) :
+    isoWith (fun lq c => Iso.getMapping (Iso.mkEnv p cl lq c)) p.tComps p.scope comps = Iso.isoUnfiltered p comps cl :=
+  isoWith_python p comps cl
+
+/-- **layout of the structure buffer** (`offsets`): when `_cython_compiled_structure` succeeds, atom `i` of `_atoms` sits at index `i`
+    with its four words and its number, and `o_from[i] … o_to[i]` delimit exactly the encoded row of `_bonds` of that atom (bond
+    word = neighbour's word I | order bit | ring bit, index = position of the neighbour), for `_bonds` keyed like `_atoms` -/
+theorem structure_buffer_layout (m : LMol) (cm : CMol) (h : encStructure m = .ok cm) (hkeys : m.adj.map (·.1) = m.ids)
+    (hnd : m.ids.Nodup) :
+    cm.atoms.length = m.atoms.length ∧
+    ∀ (i n : Nat) (a : MAtom) (ms : List (Nat × MBond)), m.atoms[i]? = some (n, a) → m.adj[i]? = some (n, ms) →
+      ∃ (ca : CAtom) (mdl : Nat) (ws : List Words) (bs : List CBond),
+        cm.atoms[i]? = some ca ∧ mdlOf a.z = some mdl ∧ (⟨ca.b1, ca.b2, ca.b3, ca.b4⟩ : Words) = atomWords mdl a ∧ ca.mapping = n ∧
+        molWords m = .ok ws ∧ rowBonds m.ids (ws.map (·.v1)) ms = .ok bs ∧ slice? cm.bonds ca.from_ ca.to_ = some bs :=
+  encStructure_layout m cm h hkeys hnd
+
+/-- well-formed inputs inside the documented domain, for the end-to-end statement -/
+structure SearchDomain (q : LQuery) (m : LMol) : Prop where
+  qwf : q.graph.WF = true
+  mwf : m.graph.WF = true
+  qkeys : q.adj.map (·.1) = q.atoms.map (·.1)
+  mkeys : m.adj.map (·.1) = m.ids
+  small : m.atoms.length < two32 ∧ q.atoms.length < two32 ∧ (∀ p ∈ m.atoms, p.1 < two32) ∧ (∀ p ∈ q.atoms, p.1 < two32)
+  atoms : ∀ p ∈ m.atoms, ∃ mdl, mdlOf p.2.z = some mdl ∧ ADom mdl p.2
+  qatoms : ∀ p ∈ q.atoms, QDom p.2
+  bonds : (∀ r ∈ m.adj, ∀ kb ∈ r.2, OrderOk kb.2.order) ∧ (∀ r ∈ q.adj, ∀ kb ∈ r.2, ∀ x ∈ kb.2.orders, OrderOk x)
+  pairs : ∀ p ∈ q.atoms, ∀ r ∈ m.atoms, NoHeavyClash p.2 r.2 ∧ HKnown p.2 r.2
+
+/-- the search equivalence the property asks for, end to end (`cythonPath = pythonPath` for every well-formed query / molecule in
+    the documented domain). **Open obligation**: proved are its three load-bearing parts (`compiled_loop_is_generic_search`,
+    `reference_loop_is_generic_search`, `compiled_search_eq_reference_search` with the local test equalities) and the layout of the
+    structure buffer; not proved are (i) that `encComponent` establishes `Faithful` (closure rows, `back` indices), (ii) the renaming
+    of array indices to atom numbers between `envR` and `envP`. Both are exercised on every `gm` / `es` / `ec` correspondence case
+    (the model's two paths are compared with each other and with the two real paths). -/
+def CythonSearchEqPythonSearch : Prop :=
+  ∀ (q : LQuery) (m : LMol) (tComps : List (List Nat)) (scope : Option (List Nat)) (autoF : Bool),
+    SearchDomain q m → cythonPath q m tComps scope autoF = pythonPath q m tComps scope autoF
 
 /-- the full-strength statement the property text asks for ("every element 1–118", any hydrogen state, any `h` value the query API
     accepts, any ring size): **false** for the current code — `Findings/C09.lean` proves `¬ MaskEqPyEqFull` from four witnesses
